@@ -235,8 +235,10 @@ def run_harness(h, outdir, tier):
         res['reason'] = 'solver ignored a construct: ' + warn[0]
         return res
     bad_internal = [o for o in obs if o['kind'] in ('internal', 'housekeeping') and o['status'] != 'SUCCESS']
-    # unwinding assertions of loops outside the library
-    if bad_internal:
+    has_real_failure = any(o['counted'] and o['status'] == 'FAILURE' for o in obs)
+    # instrumentation obligations that are not discharged make the run undecided - unless a counted obligation
+    # failed as well: then that failure is the verdict
+    if bad_internal and not has_real_failure:
         res['reason'] = 'instrumentation / unwinding obligation not discharged: %s (%s)' % (
             bad_internal[0]['name'], bad_internal[0]['description'])
         return res
@@ -261,7 +263,7 @@ def run_harness(h, outdir, tier):
         res['reason'] = 'no obligations generated'
         return res
     unknown = [o for o in counted if o['status'] not in ('SUCCESS', 'FAILURE')]
-    if unknown:
+    if unknown and not has_real_failure:
         res['reason'] = 'obligation status %s for %s' % (unknown[0]['status'], unknown[0]['name'])
         return res
     failed = [o for o in counted if o['status'] == 'FAILURE']
